@@ -932,8 +932,7 @@ def rule_beatguard(ctx):
             if not all(is_lit(x) and lit(x) == 0 for x in comps):
                 continue
             for c, pol in symeval.pc_conds(r.pc):
-                if not pol:
-                    continue
+                # either polarity: `if a.size == 0 or b.size == 0: return 0` and `if a.size > 0 and b.size > 0: ... return 0`
                 for x in tm.walk(c):
                     cf = count_form(x)
                     if cf is not None and cf[1].op == "param":
